@@ -72,6 +72,15 @@ Definition fill (t : table) (v : V) : table :=
   {| t_mod := t_mod t ; t_keys := t_keys t ;
      t_vals := match t_vals t with VOne _ => VOne v | VAligned vb => VAligned (map (map (fun _ => v)) vb) end |}.
 Definition items (dv : V) (t : table) : list (Z * V) := combine (concat (t_keys t)) (concat (fill_values t)).
+
+(* __eq__ (after repair F29): as dictionaries - as many keys, every key of self is a key of other, and the values looked up through
+   both tables agree *)
+Fixpoint list_eqb_v (a b : list V) : bool :=
+  match a, b with [], [] => true | x :: a', y :: b' => veq x y && list_eqb_v a' b' | _, _ => false end.
+Definition tbl_eq (dv : V) (t1 t2 : table) : bool :=
+  let keys := concat (t_keys t1) in
+  if negb (Nat.eqb (length keys) (length (concat (t_keys t2)))) || negb (forallb (fun b => b) (contains t2 keys)) then false else
+  match getv dv t1 keys, getv dv t2 keys with Ok a, Ok b => list_eqb_v a b | _, _ => false end.
 End Hash.
 Arguments t_mod {V}. Arguments t_keys {V}. Arguments t_vals {V}. Arguments VOne {V}. Arguments VAligned {V}.
 
